@@ -148,4 +148,191 @@ theorem vts_place (refl : Bool) (cl out : List Tok) (h : placePronouns refl cl =
     simp only [hl] at h
     exact fin cl1 iDeb (vts_negModProg cl cl1 iDeb hl) h
 
+/-! ## one finite verb, on the tokens of the whole clause -/
+
+/-- the label of a token that is not a finite form: an infinitive, a past participle, or the participle that
+    `conjugate` returns for a verb in a compound tense (that token keeps the compound tense as its label) -/
+def NonFin (t : Tense) : Prop := t = .b ∨ t = .pp ∨ t.auxTense.isSome = true
+
+theorem mem_tail_append {α} (a b : List α) (t : α) (h : t ∈ (a ++ b).tail) : t ∈ a.tail ∨ t ∈ b := by
+  cases a with
+  | nil => exact Or.inr (List.mem_of_mem_tail h)
+  | cons x r => simpa using h
+
+theorem tail_sublist_nonfin (l l' : List Tense) (hs : l'.Sublist l) (h : ∀ t ∈ l.tail, NonFin t) :
+    ∀ t ∈ l'.tail, NonFin t := by
+  cases hs with
+  | slnil => simp
+  | cons a hs' => exact fun t ht => h t (hs'.subset (List.mem_of_mem_tail ht))
+  | cons_cons a hs' => exact fun t ht => h t (hs'.subset ht)
+
+theorem vts_sublist (l l' : List Tok) (h : l'.Sublist l) : (vts l').Sublist (vts l) := h.filterMap _
+
+theorem removeEmptyAux_sublist (k : Nat) (l : List Tok) : (removeEmptyAux k l).Sublist l := by
+  induction l generalizing k with
+  | nil => exact List.Sublist.slnil
+  | cons a r ih =>
+    unfold removeEmptyAux
+    split
+    · exact List.Sublist.cons _ (ih k)
+    · exact List.Sublist.cons_cons _ (ih (k + 1))
+
+theorem removeEmpty_sublist (l : List Tok) : (removeEmpty l).Sublist l := removeEmptyAux_sublist 0 l
+
+theorem vts_tokOfConj (v : VT) (cr : ConjRes) : vts [tokOfConj v cr] = [] ∨ vts [tokOfConj v cr] = [v.t] := by
+  cases cr
+  · exact Or.inr rfl
+  · exact Or.inl rfl
+
+/-- the tokens of ONE conjugated verb: everything behind its first verb token is a participle; all of it when the verb
+    is an infinitive or a participle -/
+theorem conj_vts (x : VT) (refl : Bool) (np : Option Tok) (r : List Tok × Bool)
+    (hnp : ∀ q, np = some q → q.isV = false) (h : conjugate x refl np = .ok r) :
+    (∀ t ∈ (vts r.1).tail, NonFin t) ∧ ((x.t = .b ∨ x.t = .pp) → ∀ t ∈ vts r.1, NonFin t) := by
+  rcases conjugate_cases x refl np r h with rfl | ⟨hta, cr, rfl⟩ | ⟨ta, aux, ra, form, hta, rfl, _⟩
+  · have h0 : vts [Tok.qv x.lex.lemma x.lier] = [] := rfl
+    simp only [h0]
+    exact ⟨by simp, fun _ => by simp⟩
+  · rcases vts_tokOfConj x cr with h0 | h0 <;> simp only [h0]
+    · exact ⟨by simp, fun _ => by simp⟩
+    · refine ⟨by simp, fun hx t ht => ?_⟩
+      simp at ht; subst ht
+      rcases hx with hx | hx
+      · exact Or.inl hx
+      · exact Or.inr (Or.inl hx)
+  · have hx : NonFin x.t := Or.inr (Or.inr (by rw [hta]; rfl))
+    have hb : ¬ (x.t = .b ∨ x.t = .pp) := by
+      intro hc
+      have hb0 : Tense.b.auxTense = none := by decide
+      have hp0 : Tense.pp.auxTense = none := by decide
+      rcases hc with hc | hc <;> rw [hc] at hta
+      · rw [hb0] at hta; cases hta
+      · rw [hp0] at hta; cases hta
+    refine ⟨?_, fun hc => absurd hc hb⟩
+    have key : ∀ mid : List Tok, (∀ q ∈ mid, q.isV = false) →
+        ∀ t ∈ (vts (tokOfConj { aux with neg2 := x.neg2, lier := x.lier } ra :: (mid ++
+          [.v { x with neg2 := none, lier := false } form]))).tail, NonFin t := by
+      intro mid hmid t ht
+      have hm : vts (mid ++ [Tok.v { x with neg2 := none, lier := false } form]) = [x.t] := by
+        rw [vts_append, vts_nil_of_noV mid hmid]; rfl
+      have hsplit : vts (tokOfConj { aux with neg2 := x.neg2, lier := x.lier } ra :: (mid ++
+          [.v { x with neg2 := none, lier := false } form])) =
+          vts [tokOfConj { aux with neg2 := x.neg2, lier := x.lier } ra] ++ [x.t] := by
+        rw [← hm, ← vts_append]; rfl
+      rw [hsplit] at ht
+      rcases vts_tokOfConj { aux with neg2 := x.neg2, lier := x.lier } ra with h0 | h0 <;> rw [h0] at ht <;>
+        simp at ht
+      subst ht; exact hx
+    simp only [compoundToks]
+    split
+    · cases np with
+      | some q =>
+        exact key [q] (by intro q' hq'; simp at hq'; subst hq'; exact hnp _ rfl)
+      | none => exact key [] (by simp)
+    · exact key [] (by simp)
+
+theorem elToks_vts (e : El) (h : e.isV = false) : vts e.toks = [] :=
+  vts_nil_of_noV _ (elToks_noV e h)
+
+/-- the tokens of elements whose verbs are all infinitives or participles -/
+theorem realVPToks_nonfin (refl : Bool) (l : List El) (ts : List Tok) (hl : ∀ e ∈ l, TailOk e)
+    (h : realVPToks refl l = .ok ts) : ∀ t ∈ vts ts, NonFin t := by
+  induction l generalizing ts with
+  | nil => simp [realVPToks] at h; subst h; simp [vts]
+  | cons e tail ih =>
+    have htail : ∀ e' ∈ tail, TailOk e' := fun e' he' => hl e' (List.mem_cons_of_mem _ he')
+    by_cases hv : e.isV = true
+    · cases e with
+      | v x =>
+        have hx := hl (.v x) List.mem_cons_self
+        simp only [TailOk] at hx
+        rw [realVPToks_v] at h
+        split at h
+        · rename_i p rest
+          obtain ⟨r, hr, h⟩ := bindE_ok _ _ _ h
+          have hc := (conj_vts x refl _ r (by intro q hq; cases hq; rfl) hr).2 hx.2.2
+          have hcl := conj_clean x refl _ r hx.1 hx.2.1 hr
+          simp only [hcl.2, Bool.false_eq_true, if_false] at h
+          obtain ⟨more, hm, h⟩ := bindE_ok _ _ _ h
+          simp only [pure, Except.pure, Except.ok.injEq] at h
+          subst h
+          intro t ht
+          rw [vts_append] at ht
+          rcases List.mem_append.mp ht with ht | ht
+          · exact hc t ht
+          · exact ih more htail hm t ht
+        · obtain ⟨r, hr, h⟩ := bindE_ok _ _ _ h
+          have hc := (conj_vts x refl _ r (by intro q hq; cases hq) hr).2 hx.2.2
+          obtain ⟨more, hm, h⟩ := bindE_ok _ _ _ h
+          simp only [pure, Except.pure, Except.ok.injEq] at h
+          subst h
+          intro t ht
+          rw [vts_append] at ht
+          rcases List.mem_append.mp ht with ht | ht
+          · exact hc t ht
+          · exact ih more htail hm t ht
+      | _ => simp [El.isV] at hv
+    · have hv' : e.isV = false := by cases h' : e.isV <;> simp_all
+      rw [realVPToks_nonV refl e tail hv'] at h
+      obtain ⟨more, hm, h⟩ := bindE_ok _ _ _ h
+      simp only [pure, Except.pure, Except.ok.injEq] at h
+      subst h
+      intro t ht
+      rw [vts_append, elToks_vts e hv'] at ht
+      exact ih more htail hm t ht
+
+/-- the tokens of a VP: only the very first verb token can be a finite form -/
+theorem realVPToks_one_finite (refl : Bool) (x : VT) (r : List El) (ts : List Tok) (hr : ∀ e ∈ r, TailOk e)
+    (h : realVPToks refl (.v x :: r) = .ok ts) : ∀ t ∈ (vts ts).tail, NonFin t := by
+  rw [realVPToks_v] at h
+  split at h
+  · rename_i p rest
+    obtain ⟨cr, hcr, h⟩ := bindE_ok _ _ _ h
+    have hc := (conj_vts x refl _ cr (by intro q hq; cases hq; rfl) hcr).1
+    have hrest : ∀ e ∈ rest, TailOk e := fun e he => hr e (List.mem_cons_of_mem _ he)
+    split at h <;>
+    · obtain ⟨more, hm, h⟩ := bindE_ok _ _ _ h
+      simp only [pure, Except.pure, Except.ok.injEq] at h
+      subst h
+      intro t ht
+      rw [vts_append] at ht
+      rcases mem_tail_append _ _ t ht with ht | ht
+      · exact hc t ht
+      · first | exact realVPToks_nonfin refl _ more hrest hm t ht | exact realVPToks_nonfin refl _ more hr hm t ht
+  · obtain ⟨cr, hcr, h⟩ := bindE_ok _ _ _ h
+    have hc := (conj_vts x refl none cr (by intro q hq; cases hq) hcr).1
+    obtain ⟨more, hm, h⟩ := bindE_ok _ _ _ h
+    simp only [pure, Except.pure, Except.ok.injEq] at h
+    subst h
+    intro t ht
+    rw [vts_append] at ht
+    rcases mem_tail_append _ _ t ht with ht | ht
+    · exact hc t ht
+    · exact realVPToks_nonfin refl r more hr hm t ht
+
+/-- **one finite verb, whole clause** (constituent notation, any VP whose first element is a verb and whose other verbs
+    are infinitives or participles): among the verb tokens of the realized clause only the first can be a finite form -/
+theorem phraseReal_one_finite (refl : Bool) (sel vp : List El) (toks : List Tok) (w : Option Str) (b : Bool)
+    (hsel : SelShape sel) (hvp : VPI w b vp) (h : phraseReal refl sel vp = .ok toks) :
+    ∀ t ∈ (vts toks).tail, NonFin t := by
+  unfold phraseReal at h
+  obtain ⟨raw, hraw, h⟩ := bindE_ok _ _ _ h
+  obtain ⟨placed, hplaced, h⟩ := bindE_ok _ _ _ h
+  simp only [pure, Except.pure, Except.ok.injEq] at h
+  obtain ⟨x, r, hvpe, _, _, hr⟩ := vpi_of_esig _ _ vp (pronominalizeVP vp) (pronominalizeVP_esig vp) hvp
+  rw [hvpe] at hraw
+  have h1 := realVPToks_one_finite refl x r raw hr hraw
+  have h2 := tail_sublist_nonfin _ _ (vts_sublist _ _ (removeEmpty_sublist raw)) h1
+  rw [← vts_place refl _ placed hplaced] at h2
+  obtain ⟨pre, rfl, hpre⟩ := hsel
+  rw [flatMap_selToks pre placed (fun e he => (hpre e he).2)] at h
+  have h3 : vts (pre.flatMap El.toks ++ placed) = vts placed := by
+    rw [vts_append, vts_nil_of_noV, List.nil_append]
+    intro t ht
+    obtain ⟨e, he, hte⟩ := List.mem_flatMap.mp ht
+    exact elToks_noV e (hpre e he).1 t hte
+  rw [← h3] at h2
+  rw [← h]
+  exact tail_sublist_nonfin _ _ (vts_sublist _ _ (removeEmpty_sublist _)) h2
+
 end Pyrealb.ClauseFr
